@@ -28,7 +28,7 @@ def e2_jobs(prop, classes, tier, seed, timeout_s=None):
         for cfg in c.configs(tier):
             out.append(Job(f"{prop}/{c.name}[{cfg}]", "contracts.C02:run_contract",
                            dict(cls=cls, cfg=cfg, tier=tier, seed=seed, timeout_s=timeout_s or (30.0 if tier == "quick" else 90.0)),
-                           timeout_s=300 if tier == "quick" else 1800, weight=getattr(c, "weight", 1.0)))
+                           timeout_s=900 if tier == "quick" else 2400, weight=getattr(c, "weight", 1.0)))
     return out
 
 
